@@ -564,6 +564,18 @@ def check_property(pid, spec, tier, replay=None, keep=False):
                         os.makedirs(os.path.dirname(dst), exist_ok=True)
                         shutil.copy(r2.violation[0], dst)
                         violation = (dst, r2.violation[1], r2.violation[2])
+                    if not r2.violation:
+                        # keep the case that failed once for inspection (scratch space, never read by a check)
+                        try:
+                            keep = os.path.join(VERIF, ".work", "unreproduced")
+                            os.makedirs(keep, exist_ok=True)
+                            for cand in set(candidates):
+                                if os.path.exists(cand):
+                                    shutil.copy(cand, os.path.join(keep, "%s-%d-%s" % (pid, int(time.time()), os.path.basename(cand))))
+                        except OSError:
+                            pass
+                    if r2.violation:
+                        pass
                     elif fp in (unit.get("wallclock_fps") or []):
                         # the oracle behind this fingerprint is a wall-clock bound (bounded liveness). A bound that was
                         # exceeded once and holds on every re-execution of the same case is a starved machine, not a
